@@ -73,6 +73,15 @@ def check_input(ctx, r, inp):
     resolved = r.conflicts is not None or not r.verdict.get("single", False)
     applied_invalid = any(re.match(r"\d+\.0\.(step\d+|ahead-err\d+)$", b) for b in m.get("bad", "").split(",") if b)
     known = resolved and applied_invalid
+    if known and why:
+        # the recorded class is what the search AS WRITTEN does on such a table (C05 finding): the faithful mirror of the
+        # search must report the implementation's sets at the errors whose applied sequence is invalid; otherwise this is
+        # a different defect
+        eis = sorted(set(int(b.split(".")[0]) for b in m.get("bad", "").split(",") if re.match(r"\d+\.0\.", b)))
+        conf = repair.known_class_confirmed(r, r.inputs.index(inp), eis) if eis else None
+        ctx.count("known_class_mirror_%s" % {True: "confirms", False: "CONTRADICTS", None: "not_consulted"}[conf])
+        if conf is False:
+            known = False
     for w in why[:1]:
         d = dict(base)
         d.update({"what": "; ".join(why), "PARSE_AT_LEAST": N, "plain_interpreter": m.get("plain"), "wall_ms": inp.ms,
